@@ -84,6 +84,7 @@ type Obs struct {
 	PID          *actor.PID
 	Senders      []*actor.PID
 	FinalRegNil  bool   // the target id was unregistered when the history ended
+	Overlap      string // non-empty: two invocations of the target's Receive overlapped in time (C02)
 	Diverged     string // non-empty: the run was cut short because the actor contradicted the model
 }
 
@@ -99,6 +100,8 @@ type world struct {
 	probeSeq int
 
 	incs       atomic.Int32
+	active     atomic.Int32
+	overlap    atomic.Value
 	pid        *actor.PID
 	senders    []*actor.PID
 	gateIn     chan struct{}
@@ -142,6 +145,13 @@ type rcv struct {
 
 func (r *rcv) Receive(c *actor.Context) {
 	w := r.w
+	// C02: invocations of Receive of ONE actor (all incarnations) never overlap.  A gate blocks
+	// inside Receive with the counter at 1, so anything delivered meanwhile is caught for certain.
+	if n := w.active.Add(1); n > 1 {
+		w.overlap.CompareAndSwap(nil, fmt.Sprintf("Receive(%T) of incarnation %d was entered while %d other invocation(s) of Receive of the same actor had not returned",
+			c.Message(), r.inc, n-1))
+	}
+	defer w.active.Add(-1)
 	e := Entry{Who: "R", Inc: r.inc, From: w.fromIndex(c.Sender())}
 	switch m := c.Message().(type) {
 	case actor.Initialized:
@@ -677,6 +687,7 @@ func Run(spec Spec, waitOrphans bool) (*Obs, *Sim, error) {
 		return nil, nil, err
 	}
 	obs.FinalRegNil = e.Registry.GetPID("target", "1") == nil
+	obs.Overlap, _ = w.overlap.Load().(string)
 	w.mu.Lock()
 	obs.Log = append([]Entry(nil), w.log...)
 	obs.Events = append([]Event(nil), w.events...)
